@@ -604,11 +604,12 @@ Definition rep2s : rep :=
      ts := 90000 |}.
 
 (** Chunked transfer: a request that writeSegment rejects ends the process (send on closed
-    channel).  Still reachable: a session created before the first segment is complete asks for
-    number -1 at its first trigger. *)
+    channel).  Before fix fec92f5 ([sc_first_fix = false]) a session created before the first
+    segment is complete asked for number -1 at its first trigger; the hand-over defect itself is
+    still there for any request that writeSegment rejects. *)
 Lemma chunked_crash_witness :
   let c := {| startS := 0; startNr := 0; tsbdS := 60; ato := Some 1000 |} in
-  let cf := mk_scfg [ {| ir_kind := RVideo; ir_tab := Some rep2s |} ] rep2s 8000 2000 c false true None true in
+  let cf := mk_scfg_rcf RCeil true false [ {| ir_kind := RVideo; ir_tab := Some rep2s |} ] rep2s 8000 2000 c false true None true in
   let '(_, gs, st) := session cf 500 [] [trig; trig] in
   map (map (fun m => (mp_nr m, mp_ok m))) gs = [[(-1, false)]] /\
   ph st = PCrashed "startReadAndSendChunked: send on closed channel".
@@ -627,10 +628,11 @@ Lemma catchup_witness :
    map (map (fun m => (mp_nr m, mp_last m))) gs = [[(5, false)]; [(6, false)]; [(7, false)]; [(8, false)]] /\ lastToSend st = 6).
 Proof. vm_compute. repeat split; reflexivity. Qed.
 
-(** A start number: the first number is counted from 0 (live edge at 10000 ms with snr 3 is 7). *)
+(** Before fix fec92f5: with a start number the first number was counted from 0 (live edge at
+    10000 ms with snr 3 is 7). *)
 Lemma startnr_witness :
   let c := {| startS := 0; startNr := 3; tsbdS := 60; ato := Some 0 |} in
-  let cf := mk_scfg [ {| ir_kind := RVideo; ir_tab := Some rep2s |} ] rep2s 8000 2000 c false true None false in
+  let cf := mk_scfg_rcf RCeil true false [ {| ir_kind := RVideo; ir_tab := Some rep2s |} ] rep2s 8000 2000 c false true None false in
   (let '(_, gs, _) := session cf 10000 [] [trig] in map (map (fun m => (mp_nr m, mp_now m, mp_ok m))) gs = [[(5, 6000, true)]]) /\
   lookup rep2s 8000 c ByNumber 7 10000 = TOk {| origTime := 0; newTime := 720000; origNr := 1; newNr := 7; origDur := 180000; newDur := 180000; mtimescale := 90000 |} /\
   lookup rep2s 8000 c ByNumber 8 10000 = TTooEarly 2000.
@@ -843,13 +845,13 @@ Lemma firstNr_repaired cf now : sc_first_fix cf = true ->
   firstNr cf now = Z.max (findLastSegNr cf now) (-1) + 1 + startNr (sc_cfg cf).
 Proof. intros H. unfold firstNr. now rewrite H. Qed.
 
-(** With the proposed repair (proposed_fixes/C16-first-number.diff) the scenarios of
+(** With the current code (fix fec92f5) the scenarios of
     [startnr_witness] and of a session created before the first segment is complete: start number 3,
     live edge 7 -> first number 8 at its availability time; empty timeline -> number 0 first. *)
 Lemma first_number_repaired_witness :
   let c := {| startS := 0; startNr := 3; tsbdS := 60; ato := Some 0 |} in
-  let cf := mk_scfg_rcf RCeil true true [ {| ir_kind := RVideo; ir_tab := Some rep2s |} ] rep2s 8000 2000 c false true None false in
-  let cf0 := mk_scfg_rcf RCeil true true [ {| ir_kind := RVideo; ir_tab := Some rep2s |} ] rep2s 8000 2000 cfg0 false true None false in
+  let cf := mk_scfg [ {| ir_kind := RVideo; ir_tab := Some rep2s |} ] rep2s 8000 2000 c false true None false in
+  let cf0 := mk_scfg [ {| ir_kind := RVideo; ir_tab := Some rep2s |} ] rep2s 8000 2000 cfg0 false true None false in
   (let '(_, gs, _) := session cf 10000 [] [trig] in map (map (fun m => (mp_nr m, mp_now m, mp_ok m))) gs = [[(8, 12000, true)]]) /\
   (let '(_, gs, _) := session cf0 1000 [] [trig; trig] in map (map (fun m => (mp_nr m, mp_now m, mp_ok m))) gs = [[(0, 2000, true)]; [(1, 4000, true)]]).
 Proof. vm_compute. split; reflexivity. Qed.
